@@ -635,3 +635,37 @@ def the_poller_hears_of_a_new_interval_whatever_other_listeners_do(ctx):
     around the whole loop lets the first failing listener skip the poller's, and the new interval never takes effect"""
     from sa.rules import c05
     c05.callback_guard_handler_is_total(ctx)
+
+
+@rule('C13.R10', min_instances=1)
+def generated_member_readers_are_marked_not_polled_on_every_path(ctx):
+    """StructParam generates read_<member> functions that go through read_<struct>; they carry `poll = False` (only the struct is
+    polled).  The mark is set on EVERY way from the definition of such a function to the end of the function that creates it -
+    behind an early return (`if self.readonly: return rfunc, None`) the reader of a readonly struct keeps the default and the
+    poller reads every member, each time through the whole struct"""
+    m = ctx.m
+    ci = m.classes.get('frappy.extparams.StructParam')
+    if ci is None:
+        raise AnchorMissing('frappy.extparams.StructParam not found')
+    n = 0
+    for name, f in sorted(ci.methods.items()):
+        marks = {}
+        for t, v, st in attr_stores(f.node):
+            if t.attr == 'poll' and isinstance(t.value, ast.Name) and isinstance(v, ast.Constant) and v.value is False:
+                marks.setdefault(t.value.id, []).append(st)
+        if not marks:
+            continue
+        cfg = CFG(f.node, m, f.module)
+        for d in [x for x in ast.walk(f.node) if isinstance(x, ast.FunctionDef) and x is not f.node and x.name in marks]:
+            dids = cfg.ids(d)
+            if not dids:
+                continue
+            n += 1
+            ctx.analysed(f)
+            sids = [i for st in marks[d.name] for i in cfg.node_of(st)]
+            ok = cfg.all_paths_pass(dids, [cfg.exit], sids, exc=False)
+            ctx.check(ok, f'{f.qualname}:{d.name} is marked not polled on every path', d, f'`{d.name}.poll = False` lies on every way from the definition to the end of {f.name}',
+                      f'{f.name} can be left after `def {d.name}` without passing `{src(marks[d.name][0])}`: on that way the generated reader keeps poll=True and the poll '
+                      'thread reads the member parameter although only the struct is to be polled', f)
+    if not n:
+        raise AnchorMissing('generated reader with `<func>.poll = False` not found in StructParam')
